@@ -1,5 +1,6 @@
 import ZenoModel.Driver.Codec
 import ZenoModel.Model.Auth
+import ZenoModel.Model.AuthSession
 
 namespace Zeno.Drv
 open Lean
@@ -19,9 +20,64 @@ def parseCookie (j : Json) : R (Option Cookie) := do
   let o ← (← obj j "org").getBool?
   return some { decodes := d, expiration := e, orgVerified := o }
 
+
+def parseOrgAnswer : String → R OrgAnswer
+  | "inOrg" => pure .inOrg | "notInOrg" => pure .notInOrg | "httpError" => pure .httpError
+  | "garbage" => pure .garbage | "unreachable" => pure .unreachable
+  | s => throw s!"auth: unknown org answer {s}"
+
+def parseTokenAnswer (j : Json) : R TokenAnswer := do
+  match (← str j "kind") with
+  | "token" => pure (.token (← nat j "principal"))
+  | "noToken" => pure .noToken
+  | "garbage" => pure .garbage
+  | "unreachable" => pure .unreachable
+  | s => throw s!"auth: unknown token answer {s}"
+
+def parseCookieCred (j : Json) : R CookieCred := do
+  match (← str j "kind") with
+  | "none" => pure .none
+  | "forged" => pure .forged
+  | "issued" => pure (.issued (← nat j "id"))
+  | s => throw s!"auth: unknown cookie credential {s}"
+
+def parseSession (j : Json) : R Session := do
+  pure { principal := ← nat j "principal", expiry := ← int j "exp", verified := boolD j "verified" true }
+
+def sessionJson (c : Session) : Json :=
+  Json.mkObj [("principal", Json.num (Int.ofNat c.principal)), ("exp", Json.str (toString c.expiry)),
+    ("verified", Json.bool c.verified)]
+
+def parsePolicy : String → R Policy
+  | "code" => pure Policy.code
+  | "beforeD17" => pure Policy.beforeD17
+  | "refreshOnErrNil" => pure Policy.refreshOnErrNil
+  | "refreshOnError" => pure Policy.refreshOnError
+  | "callbackBeforeCheck" => pure Policy.callbackBeforeCheck
+  | s => throw s!"auth: unknown policy {s}"
+
+def parseSReq (j : Json) : R SReq := do
+  let target ← match (← str j "target") with
+    | "data" => pure (Target.data (← str j "route"))
+    | "callback" => pure Target.callback
+    | s => throw s!"auth: unknown target {s}"
+  pure { target := target, header := ← str j "header", cookie := ← parseCookieCred (← obj j "cookie"),
+         now := ← int j "now", stateOk := boolD j "stateOk" false,
+         tokenAns := ← parseTokenAnswer (← obj j "token"), orgAns := ← parseOrgAnswer (← str j "org") }
+
+def srespJson (r : SResp) : Json :=
+  Json.mkObj [("outcome", Json.str r.outcome.str),
+    ("setCookie", match r.setCookie with | none => Json.null | some c => sessionJson c),
+    ("askedToken", Json.bool r.askedToken),
+    ("askedOrgs", match r.askedOrgs with | none => Json.null | some p => Json.num (Int.ofNat p)),
+    ("branch", Json.str r.branch)]
+
 /-- engine `auth`: one access decision per line.
     * op `rpc`: `{handler, password, hasMd, md}` ↦ `{decision: allow|refuse, guarded, branch}`
       (`allow` = the handler body goes on to the database / the stream);
+    * op `webseq`: `{clientID, clientSecret, password, init: [session…], steps: [request…], policy?}` ↦
+      `{steps: [{outcome, setCookie, askedToken, askedOrgs, branch}…], issued: n}` — the session state machine
+      of `Model/AuthSession.lean` run over a whole request sequence;
     * op `web`: `{route, clientID, clientSecret, password, header, cookie, now}` ↦
       `{decision: allow|deny|redirect, guarded, branch}`;
     `"buggy": true` selects the pre-fix decision functions (D10/D11), used only to
@@ -51,6 +107,17 @@ def authEngine (j : Json) : R Json := do
       | some (d, branch) =>
         pure (Json.mkObj [("decision", Json.str d.str),
           ("guarded", Json.bool ((webRouteGuarded route).getD false)), ("branch", Json.str branch)])
+  | "webseq" =>
+      let o : WebOpts := { oauthClientID := ← str j "clientID", oauthClientSecret := ← str j "clientSecret",
+                           password := ← str j "password" }
+      let pol ← match j.getObjVal? "policy" with
+        | .ok v => parsePolicy (← v.getStr?)
+        | .error _ => pure Policy.code
+      let init ← (← arr j "init").toList.mapM parseSession
+      let reqs ← (← arr j "steps").toList.mapM parseSReq
+      let tr := sessionTrace pol o init reqs
+      pure (Json.mkObj [("steps", Json.arr (tr.map (fun e => srespJson e.2.2)).toArray),
+        ("issued", Json.num (Int.ofNat (sessionRun pol o init reqs).length))])
   | _ => throw s!"auth: unknown op {op}"
 
 end Zeno.Drv
